@@ -24,6 +24,8 @@ EXTENDS Naturals, Integers, Sequences, FiniteSets, TLC, Json, IOUtils
 TraceLog == ndJsonDeserialize(IOEnv.TRACE)
 Order == IF "ORDER" \in DOMAIN IOEnv THEN IOEnv.ORDER ELSE "0"
 Keys == 0..4
+\* CANCONT = "1": the Policies have canContinueInvoking(args) = "the argument value is not 2" (C12)
+CanCont == IF "CANCONT" \in DOMAIN IOEnv THEN IOEnv.CANCONT = "1" ELSE FALSE
 
 VARIABLES lst, flt, nn, nf, pending, frames, done, pins, l,
           armed,     \* a fault (allocation failure / throwing copy) is armed for the operation that follows (C09)
@@ -67,6 +69,9 @@ PutBack(kept, s) == IF Order = "0" THEN kept \o s ELSE MergeFront(kept, s)
 
 \* ---- frames
 LiveL(e, s) == SelectSeq(s, LAMBDA x : InSeq(lst[e], x))
+\* a listener wrapped by conditionalFunctor runs exactly when its condition (here: the argument value is even) holds; otherwise its turn passes silently
+RunsFor(n, v) == kind[n].k # "cf" \/ v % 2 = 0
+LiveR(e, s, v) == SelectSeq(LiveL(e, s), LAMBDA x : RunsFor(x, v))
 LiveF(s) == SelectSeq(s, LAMBDA x : InSeq(flt, x))
 \* (the filters belong to dispatcher 1, keys 1 and 2; dispatcher 2 of the remover histories has none)
 NewD(e, uid, v, explicit, alias) == [k |-> "D", e |-> e, uid |-> uid, v |-> v, v0 |-> v, ph |-> "f", ftodo |-> IF e \in {1, 2} THEN flt ELSE <<>>, todo |-> <<>>, cur |-> 0,
@@ -74,7 +79,7 @@ NewD(e, uid, v, explicit, alias) == [k |-> "D", e |-> e, uid |-> uid, v |-> v, v
 NewP(mode, batch) == [k |-> "P", mode |-> mode, batch |-> batch, kept |-> <<>>, cnt |-> 0, inpred |-> 0, stopped |-> FALSE]
 \* a dispatch whose filters are through takes the snapshot of its listeners
 Norm(d) == IF d.ph = "f" /\ d.cur = 0 /\ LiveF(d.ftodo) = <<>> THEN [d EXCEPT !.ph = "l", !.todo = lst[d.e]] ELSE d
-Finished(d) == d.cur = 0 /\ (d.ph = "x" \/ (d.ph = "l" /\ LiveL(d.e, d.todo) = <<>>))
+Finished(d) == d.cur = 0 /\ (d.ph = "x" \/ (d.ph = "l" /\ LiveR(d.e, d.todo, d.v) = <<>>))
 
 \* the library's own steps between two observable events
 RECURSIVE Settle(_,_)
@@ -111,6 +116,7 @@ EvAppendL == Is("al") /\ AddL(Ev.o, Append(lst[Ev.o], nn + 1)) /\ PlainKind
 EvPrependL == Is("pl") /\ AddL(Ev.o, <<nn + 1>> \o lst[Ev.o]) /\ PlainKind
 \* CounterRemover(trigger count Ev.a) / ConditionalRemover: appended like any listener, they detach themselves later
 EvAppendCtr == Is("ac") /\ AddL(Ev.o, Append(lst[Ev.o], nn + 1)) /\ kind' = Append(kind, [k |-> "ctr", left |-> IF Ev.a < 1 THEN 1 ELSE Ev.a]) /\ UNCHANGED rem
+EvAppendCF == Is("aw") /\ AddL(Ev.o, Append(lst[Ev.o], nn + 1)) /\ kind' = Append(kind, [k |-> "cf", left |-> 0]) /\ UNCHANGED rem
 EvAppendCond == Is("ak") /\ AddL(Ev.o, Append(lst[Ev.o], nn + 1)) /\ kind' = Append(kind, [k |-> "cond", left |-> 0]) /\ UNCHANGED rem
 EvInsertL == Is("il") /\ UsableL(Ev.o, Ev.a)
              /\ LET s == lst[Ev.o] IN AddL(Ev.o, IF InSeq(s, Ev.a) THEN LET p == Pos(s, Ev.a) IN SubSeq(s, 1, p - 1) \o <<nn + 1>> \o SubSeq(s, p, Len(s))
@@ -176,7 +182,7 @@ EvEnter == /\ Is("en") /\ LET S == Settle(frames, done) IN
                       /\ d.cur = Ev.a /\ Ev.u = d.uid /\ Ev.b = d.v
                       /\ frames' = [S.fr EXCEPT ![Len(S.fr)].ph = "l"] /\ UNCHANGED <<lst, kind, pins>>
                  ELSE /\ d.cur = 0 /\ d.ph = "l"
-                      /\ LET t == LiveL(d.e, d.todo) IN
+                      /\ LET t == LiveR(d.e, d.todo, d.v) IN
                          /\ t # <<>> /\ Head(t) = Ev.a /\ kind[Ev.a].k # "cond" /\ Ev.u = d.uid /\ Ev.b = d.v /\ (Ev.o = 0 \/ Ev.o = d.e)
                          /\ frames' = [S.fr EXCEPT ![Len(S.fr)] = [d EXCEPT !.todo = Tail(t), !.cur = Ev.a]]
                          \* a CounterRemover listener counts this trigger and, on its last one, is detached BEFORE it runs
@@ -189,7 +195,7 @@ EvEnter == /\ Is("en") /\ LET S == Settle(frames, done) IN
 \* ConditionalRemover: the condition is evaluated once per trigger, with the trigger's arguments, before the wrapped listener
 EvCondBegin == /\ Is("kb") /\ LET S == Settle(frames, done) IN
                   /\ S.fr # <<>> /\ Top(S.fr).k = "D" /\ Top(S.fr).cur = 0 /\ Top(S.fr).ph = "l"
-                  /\ LET d == Top(S.fr)  t == LiveL(d.e, d.todo) IN
+                  /\ LET d == Top(S.fr)  t == LiveR(d.e, d.todo, d.v) IN
                      /\ t # <<>> /\ Head(t) = Ev.a /\ kind[Ev.a].k = "cond" /\ Ev.u = d.uid /\ Ev.b = d.v
                      /\ frames' = [S.fr EXCEPT ![Len(S.fr)] = [d EXCEPT !.todo = Tail(t), !.cur = Ev.a, !.ph = "c"]]
                   /\ done' = S.dn
@@ -293,8 +299,9 @@ EvSDestroy == /\ Is("sd") /\ rem[Ev.o].alive
 EvSCreate == /\ Is("sn") /\ ~rem[Ev.o].alive /\ Ev.a \in {1, 2}
              /\ rem' = [rem EXCEPT ![Ev.o] = [alive |-> TRUE, tgt |-> Ev.a, resp |-> {}]]
              /\ UNCHANGED <<lst, flt, nn, nf, pending, frames, done, pins, kind>>
+\* after each listener the canContinueInvoking policy is asked with the current arguments; false = no further listener of this dispatch
 EvRet == /\ Is("rt") /\ frames # <<>> /\ Top(frames).k = "D" /\ Top(frames).ph = "l" /\ Top(frames).cur = Ev.a /\ Ev.a # 0
-         /\ frames' = [frames EXCEPT ![Len(frames)].cur = 0]
+         /\ frames' = [frames EXCEPT ![Len(frames)] = [@ EXCEPT !.cur = 0, !.todo = IF CanCont /\ Top(frames).v = 2 THEN <<>> ELSE @]]
          /\ UNCHANGED <<lst, flt, nn, nf, pending, done, pins>>
 
 \* ---- queue
@@ -369,7 +376,7 @@ EvReset == /\ Is("rs") /\ frames = <<>> /\ Ev.lv = 0 /\ Ev.pv = 0
            /\ armed' = FALSE
            /\ kind' = <<>> /\ rem' = [r \in Rs |-> IF r = 1 THEN [alive |-> TRUE, tgt |-> 1, resp |-> {}] ELSE NoRem]
 
-Next == \/ ((EvAppendL \/ EvPrependL \/ EvInsertL \/ EvAppendCtr \/ EvAppendCond) /\ UA)
+Next == \/ ((EvAppendL \/ EvPrependL \/ EvInsertL \/ EvAppendCtr \/ EvAppendCond \/ EvAppendCF) /\ UA)
         \/ EvThrowUser \/ EvDispatchExit \/ EvProcessExit \/ EvArm \/ EvFaulted \/ EvTakeFaulted
         \/ ((EvRemoveL \/ EvHasAnyL \/ EvOwnsL \/ EvForEachL \/ EvVisitL \/ EvAppendF \/ EvRemoveF
              \/ EvDispatchBegin \/ EvDispatchEnd \/ EvFilterBegin \/ EvFilterEnd \/ EvRet
